@@ -215,12 +215,28 @@ func c08History(r *ev.Run, seed int64, hi int) bool {
 			}
 			trace = append(trace, "dep+ "+short)
 		case x < 26:
-			cfg.VerifDependencyUpdate(nil, []*service.Service{{Name: name}})
-			delete(inDeps, name)
-			delete(latestInvalid, name)
-			delete(hasCfg, name)
-			delete(hadInvalidFirst, name)
-			trace = append(trace, "dep- "+short)
+			// one update may remove several services, known and unknown ones in any order
+			rm := []*service.Service{{Name: name}}
+			label := short
+			if rnd.Intn(2) == 0 {
+				extra := []string{prefix + "never-a-dependency", names[rnd.Intn(npool)], prefix + "unknown"}
+				rnd.Shuffle(len(extra), func(i, j int) { extra[i], extra[j] = extra[j], extra[i] })
+				rm = nil
+				label = ""
+				for _, e := range append(extra[:1+rnd.Intn(2)], name, extra[2]) {
+					rm = append(rm, &service.Service{Name: e})
+					label += strings.TrimPrefix(e, prefix) + ","
+				}
+				features["multi-service-removal"] = true
+			}
+			cfg.VerifDependencyUpdate(nil, rm)
+			for _, sv := range rm {
+				delete(inDeps, sv.Name)
+				delete(latestInvalid, sv.Name)
+				delete(hasCfg, sv.Name)
+				delete(hadInvalidFirst, sv.Name)
+			}
+			trace = append(trace, "dep- "+label)
 		case x < 30:
 			// remove then re-add in one update, and duplicates
 			cfg.VerifDependencyUpdate([]*service.Service{{Name: name}, {Name: name}}, []*service.Service{{Name: name}})
@@ -423,4 +439,5 @@ func c08(r *ev.Run) {
 	r.Require("histories_judged", 100)
 	r.Require("histories_with:address-in-both-lists", 5)
 	r.Require("histories_with:removal-only-update", 5)
+	r.Require("histories_with:multi-service-removal", 5)
 }
